@@ -104,6 +104,10 @@ def gen_case(rng, name, with_unknown):
       hyper['n_constraints'] = None
       n = 20 * ncls ** 2
     else:
+      if rng.random() < 0.3:
+        # more constraints requested than same-class pairs exist: fewer positives than negatives are generated
+        # (the documented warning case; LSML_Supervised then truncates both to the same length)
+        n = int(rng.integers(60, 140))
       hyper['n_constraints'] = n
     ev['n'] = n
     if name == 'ITML_Supervised':
